@@ -125,6 +125,83 @@ Theorem nt_persists_reopen : forall nt,
 Proof. exact nt_persists_lemma. Qed.
 Print Assumptions nt_persists_reopen.
 
+(** ---- whole operations (deepening round): interlace conversion (pointer walk) + per-component number
+    conversion (any enc/dec with dec (enc c) = c) + region engine refine the raster specification s_write /
+    s_read for ALL regions inside the image, strides, the 3x3 interlaces, component counts and images ---- *)
+
+(** GRwriteimage on an image with data ([Some l]) or a new image ([None]; never-written pixels = fill pixel) *)
+Theorem image_write_refines : forall (C D : Type) (enc : C -> D) (dec : D -> C) (d0 : C),
+    (forall c, dec (enc c) = c) ->
+    forall (e : option (list (list D))) xdim ydim nc wil r (fillpx user : list C),
+      1 <= nc -> rgn_inside xdim ydim r = true -> length user = r_cx r * r_cy r * nc ->
+      (forall l, e = Some l -> length l = xdim * ydim) ->
+      map (map dec) (m_write enc d0 e xdim ydim nc wil r fillpx user) =
+      s_write d0 (match e with Some l => map (map dec) l | None => repeat fillpx (xdim * ydim) end)
+              xdim ydim nc wil r user.
+Proof. intros C D. exact (@image_write_refines_lemma C D). Qed.
+Print Assumptions image_write_refines.
+
+(** GRreadimage (strided reads of existing data included) *)
+Theorem image_read_refines : forall (C D : Type) (enc : C -> D) (dec : D -> C) (d0 : C)
+                                    (e : list (list D)) xdim ydim nc ril r,
+    1 <= nc -> rgn_inside xdim ydim r = true -> length e = xdim * ydim ->
+    (forall px, In px e -> length px = nc) ->
+    m_read dec d0 e xdim ydim nc ril r = s_read d0 (map (map dec) e) xdim nc ril r.
+Proof. intros C D. exact (@image_read_refines_lemma C D). Qed.
+Print Assumptions image_read_refines.
+
+(** GRreadimage of a never-written image: every requested pixel is the fill pixel, in the requested interlace *)
+Theorem read_nodata_refines : forall (C : Type) (d0 : C) xdim ydim nc ril r (fillpx : list C),
+    1 <= nc -> rgn_inside xdim ydim r = true -> length fillpx = nc ->
+    m_read_nodata d0 nc ril r fillpx = s_read d0 (repeat fillpx (xdim * ydim)) xdim nc ril r.
+Proof. intros C. exact (@read_nodata_refines_lemma C). Qed.
+Print Assumptions read_nodata_refines.
+
+(** GRwritechunk / GRreadchunk: interlace conversion over the chunk lengths and number conversion *)
+Theorem chunk_write_refines : forall (C D : Type) (enc : C -> D) (dec : D -> C) (d0 : C),
+    (forall c, dec (enc c) = c) ->
+    forall (e : list (list D)) xdim ydim nc wil c0 c1 o0 o1 (user : list C),
+      1 <= nc -> length user = c0 * c1 * nc ->
+      map (map dec) (put_chunk [] e xdim ydim c0 c1 o0 o1
+                               (chunk_px (enc d0) nc (c0 * c1) (map enc (pixbuf_of d0 wil c0 c1 nc user)))) =
+      put_chunk [] (map (map dec) e) xdim ydim c0 c1 o0 o1 (user_pixels d0 wil c0 c1 nc user).
+Proof. intros C D. exact (@chunk_write_refines_lemma C D). Qed.
+Print Assumptions chunk_write_refines.
+
+Theorem chunk_read_refines : forall (C D : Type) (dec : D -> C) (d0 : C)
+                                    (e : list (list D)) xdim ydim nc ril c0 c1 o0 o1,
+    1 <= nc -> chunk_inside xdim ydim c0 c1 o0 o1 = true -> length e = xdim * ydim ->
+    (forall px, In px e -> length px = nc) ->
+    let mem := map dec (concat (get_chunk [] e ydim c0 c1 o0 o1)) in
+    (if il_eqb ril ILpixel then mem else il_convert_walk ILpixel ril c0 c1 nc 1 mem (repeat d0 (length mem))) =
+    il_convert_spec d0 ILpixel ril c0 c1 nc 1 (concat (get_chunk [] (map (map dec) e) ydim c0 c1 o0 o1)).
+Proof. intros C D. exact (@chunk_read_refines_lemma C D). Qed.
+Print Assumptions chunk_read_refines.
+
+(** History level, the functions the correspondence run executes: a new image is related to its specification
+    (img_rel), every GRwriteimage the specification accepts is performed by the model and keeps the relation
+    (invariant: element length, pixel lengths, fill length), and every GRreadimage returns the specified bytes.
+    By induction this covers every sequence of region writes and region / strided reads, on written and
+    never-written images, in any of the 3x3 interlace combinations. *)
+Theorem img_rel_create : forall g il, 1 <= gnc g -> img_rel (m_create g il) (s_create g il).
+Proof. exact img_rel_create_lemma. Qed.
+Print Assumptions img_rel_create.
+
+Theorem img_rel_reqil : forall m s il, img_rel m s -> img_rel (m_reqil m il) (s_reqil s il).
+Proof. exact img_rel_reqil_lemma. Qed.
+Print Assumptions img_rel_reqil.
+
+Theorem sim_writeimage : forall m s r bytes s',
+    img_rel m s -> s_writeimage s r bytes = Some s' ->
+    exists m' tr, m_writeimage m r bytes = Some (m', tr) /\ img_rel m' s'.
+Proof. exact sim_writeimage_lemma. Qed.
+Print Assumptions sim_writeimage.
+
+Theorem sim_readimage : forall m s r out,
+    img_rel m s -> s_readimage s r = Some out -> exists tr, m_readimage m r = Some (out, tr).
+Proof. exact sim_readimage_lemma. Qed.
+Print Assumptions sim_readimage.
+
 (** Non-vacuity and concrete instances. *)
 Example walk_line_to_pixel :
   il_convert_walk ILline ILpixel 3 2 2 1 [1;2;3;4;5;6;7;8;9;10;11;12] (repeat 0 12)
@@ -158,3 +235,21 @@ Example litend_type_in_domain :
   In (Z.lor DFNT_UINT16 DFNT_LITEND) gr_number_types /\ nt_size (Z.lor DFNT_UINT16 DFNT_LITEND) = Some 2
   /\ reopen_nt (Z.lor DFNT_UINT16 DFNT_LITEND) DFNTF_HDFDEFAULT = (Z.lor DFNT_UINT16 DFNT_LITEND, DFNTF_PC).
 Proof. vm_compute. intuition. Qed.
+(** deepening round: the hypotheses of the simulation theorems are met by a real history -- 3 x 2 image of
+    two uint16 components, line interlace, strided first write, then strided read in component interlace *)
+Definition g_ex : geom := {| gx := 3; gy := 2; gnc := 2; gcs := 2; gswap := true; gnt := DFNT_UINT16; gsub := DFNTF_HDFDEFAULT |}.
+Definition r_ex := {| r_sx := 0; r_sy := 1; r_tx := 2; r_ty := 1; r_cx := 2; r_cy := 1 |}.
+Example sim_hypotheses_met :
+  mk_geom 3 2 2 DFNT_UINT16 = Some g_ex /\ img_rel (m_create g_ex ILline) (s_create g_ex ILline) /\
+  s_writeimage (s_create g_ex ILline) r_ex [1;2;3;4;5;6;7;8]%Z <> None /\
+  (forall s', s_writeimage (s_create g_ex ILline) r_ex [1;2;3;4;5;6;7;8]%Z = Some s' ->
+              s_readimage (s_reqil s' ILcomp) r_ex = Some [1;2;3;4;5;6;7;8]%Z).
+Proof.
+  split; [vm_compute; reflexivity|]. split; [apply img_rel_create; vm_compute; auto|].
+  split; [vm_compute; discriminate|]. intros s' H. vm_compute in H. injection H as <-. vm_compute. reflexivity.
+Qed.
+Example write_read_compose_instance :
+  m_read (@rev Z) [0%Z] (m_write (@rev Z) [0%Z] None 3 2 2 ILline r_ex [[9]%Z; [9]%Z] [[1;2]; [3;4]; [5;6]; [7;8]]%Z)
+         3 2 2 ILcomp r_ex = [[1;2]; [3;4]; [5;6]; [7;8]]%Z
+  /\ chunk_inside 4 6 2 3 1 0 = true /\ rgn_inside 3 2 r_ex = true.
+Proof. vm_compute. auto. Qed.
